@@ -31,13 +31,16 @@ func init() {
 // C13: (a) reference counting of mux handles, observed by behaviour only (UDP mux over simnet, TCP mux over
 // simstream); (b) the write-abort protocol of the shared UDP socket under the seeded goroutine scheduler.
 func runC13(c *core.Ctx) {
-	switch c.T.Pick([]int{2, 1, 5}, "part") {
+	switch c.T.Pick([]int{2, 1, 5, 2}, "part") {
 	case 0:
 		c.Knob("part", "refcount-udp")
 		runC13RefUDP(c)
 	case 1:
 		c.Knob("part", "refcount-tcp")
 		runC13RefTCP(c)
+	case 3:
+		c.Knob("part", "refcount-udp-scheduled")
+		runC13RefSched(c)
 	default:
 		c.Knob("part", "write-abort")
 		runC13Abort(c)
@@ -424,6 +427,133 @@ func runC13RefTCP(c *core.Ctx) {
 		},
 	}
 	r.run()
+}
+
+// runC13RefSched: handles of one ufrag, each with a reader looping in ReadFrom; closers, inbound datagrams and
+// writers run as tasks interleaved at the mux's Yield sites. After quiescence: the reader of every closed handle
+// has failed, the reader of every open handle is still waiting, no datagram was lost or duplicated while the
+// connection lived, and the open handles (or, after a full release, a fresh connection) still receive.
+func runC13RefSched(c *core.Ctx) {
+	t := c.T
+	w := newC12World(c)
+	if w == nil {
+		return
+	}
+	w.nU = 2
+	c12QuietGC(c)
+	s := sched.Install(c, nil)
+	k := t.Range(2, 4, "handles")
+	c.Knob("handles", k)
+	for i := 0; i < k; i++ {
+		if !w.doGet(0, 0, i, t.Bias(1, 2, "readAP")) {
+			c.Failf("harness/c13-get", "GetConn failed")
+			return
+		}
+	}
+	s.Run(2000)
+	var wg sync.WaitGroup
+	task := func(site string, f func()) {
+		wg.Add(1)
+		go func() {
+			defer wg.Done()
+			s.Yield(site)
+			f()
+		}()
+	}
+	closing := make([]bool, k)
+	nClose := t.Range(1, k, "closers")
+	for i := 0; i < nClose; i++ {
+		h := (t.Choose(k, "victim") + i) % k
+		twice := closing[h]
+		closing[h] = true
+		task("harness.c13.closer", func() {
+			_ = w.handles[h].conn.Close()
+			if twice {
+				c.Probe("concurrent-double-close")
+			}
+		})
+	}
+	var sent []*c12Pay
+	for i, n := 0, t.Range(1, 4, "inbound"); i < n; i++ {
+		p := w.mkPayload(c12KUser, 0, 1, t.Choose(2, "insrc"), t.Bias(1, 3, "inmapped"))
+		sent = append(sent, p)
+		task("harness.c13.inbound", func() { w.arrive(p) })
+	}
+	for i, n := 0, t.Range(0, 2, "writers"); i < n; i++ {
+		h, a := t.Choose(k, "whandle"), t.Choose(2, "dst")
+		task("harness.c13.writer", func() { w.doWrite(h, a, false, false) })
+	}
+	done := make(chan struct{})
+	go func() { wg.Wait(); close(done) }()
+	steps := s.Run(5000)
+	c.Knob("schedSteps", steps)
+	select {
+	case <-done:
+	default:
+		c.Failf("C13/deadlock", "closers/readers/writers did not finish after %d scheduling steps (parked: %s)", steps, s.Describe())
+		return
+	}
+	w.collect()
+	if c.Failed() {
+		return
+	}
+	open := 0
+	w.mu.Lock()
+	for i := 0; i < k; i++ {
+		h := w.handles[i]
+		ended := len(h.recs) > 0 && h.recs[len(h.recs)-1].err != nil
+		switch {
+		case closing[i] && !ended:
+			c.Failf("C13/udp/closed-handle-read-still-blocked", "h%d.Close() returned, its reader is still blocked in ReadFrom", i)
+		case !closing[i] && ended:
+			c.Failf("C13/udp/sibling-read-disturbed", "the reader of open handle h%d failed (%v) while siblings were being closed", i, h.recs[len(h.recs)-1].err)
+		}
+		if !closing[i] {
+			open++
+		}
+	}
+	w.mu.Unlock()
+	if c.Failed() {
+		return
+	}
+	if open > 0 {
+		for _, p := range sent {
+			if p.arrived && !p.read {
+				c.Failf("C13/udp/sibling-receive-fails", "%d handle(s) stayed open, yet datagram p%d for the ufrag was received by nobody", open, p.id)
+				return
+			}
+		}
+		c.Probe("siblings-usable-after-close")
+	} else {
+		h := k
+		var ok bool
+		c12Sync(s, func() { ok = w.doGet(0, 0, h, false) })
+		if !ok {
+			c.Failf("C13/udp/reget-fails", "GetConn after the last handle was closed failed")
+			return
+		}
+		c.Probe("last-close")
+	}
+	p := w.mkPayload(c12KUser, 0, 1, 2, false)
+	w.arrive(p)
+	s.Run(3000)
+	w.collect()
+	if c.Failed() {
+		return
+	}
+	if !p.read {
+		c.Failf("C13/udp/sibling-receive-fails", "after the closers finished (%d handle(s) open, fresh connection: %v) a datagram for the ufrag was received by nobody", open, open == 0)
+		return
+	}
+	if h := w.handles[p.readBy]; p.readBy < k && closing[p.readBy] {
+		c.Failf("C13/udp/closed-handle-read-succeeds", "a datagram that arrived after h%d.Close() had returned was handed to h%d", h.idx, h.idx)
+		return
+	}
+	for site, n := range s.Parks {
+		if n > 0 && !strings.HasPrefix(site, "harness.") {
+			c.Probe("site:" + site)
+		}
+	}
 }
 
 // curGone reports whether the server side of the client's stream was closed (the client would read EOF).
